@@ -260,7 +260,7 @@ MINOR_KEYS = [
 
 TIME_UNITS = ["beat", "quarter", "sec", "div", "tick"]
 
-NOTE_NAME_PATT = re.compile(r"([A-G]{1})([xb\#]*)(\d+)")
+NOTE_NAME_PATT = re.compile(r"([A-G]{1})([xb\#]*)(-?\d+)")
 
 INTERVALCLASSES = [
     f"{specific}{generic}"
